@@ -4,13 +4,16 @@ package main
 //   - the version lists of manager_lifecycle.go newLifecycleManager (constants resolved) and of mcp_messages.go,
 //   - every exported method of Client (client.go) and StdioClient (stdio_client.go) with its class and whether the
 //     not-initialized guard precedes any use of the transport,
-//   - structural facts about Initialize / Close of both clients.
+//   - structural facts about Initialize / Close of both clients,
+//   - server side: the store / lock shape of updateCapabilities and buildInitializeResponse around the shared capability map,
+//     and whether handleInitialize passes selectSupportedVersion(requested) unchanged into the answer.
 // Purely syntactic; anything not recognised is emitted as a value the Lean predicates reject.
 
 import (
 	"fmt"
 	"go/ast"
 	"go/token"
+	"regexp"
 	"sort"
 	"strconv"
 	"strings"
@@ -509,6 +512,7 @@ func genLifecycle(root *pkgSrc) {
 		fmt.Fprintf(&b, "  (%s, %s, %s, %s, %s) /- %s -/", leanText(recv), leanBool(refuses), leanBool(once), leanBool(disc), leanBool(closeResets), recv)
 	}
 	b.WriteString("]\n")
+	lifecycleServerFacts(root, &b)
 	b.WriteString("end Mcp.Gen\n")
 	writeIfChanged("LifecycleFacts.lean", b.String())
 }
@@ -540,4 +544,356 @@ func stmtIsFlagStore(s ast.Stmt, rv, val string) bool {
 		return isFlagStore(es.X, rv, val)
 	}
 	return false
+}
+
+// ---------- server side: how handleInitialize computes its answer (structure only)
+
+// selField: e is `<rv>.<field>`
+func selField(e ast.Expr, rv, field string) bool {
+	sel, ok := e.(*ast.SelectorExpr)
+	if !ok || sel.Sel.Name != field {
+		return false
+	}
+	id, ok := sel.X.(*ast.Ident)
+	return ok && id.Name == rv
+}
+
+// muCall: n is the call `<rv>.mu.<name>()`
+func muCall(n ast.Node, rv string, names ...string) bool {
+	call, ok := n.(*ast.CallExpr)
+	if !ok || len(call.Args) != 0 {
+		return false
+	}
+	sel, ok := call.Fun.(*ast.SelectorExpr)
+	if !ok || !selField(sel.X, rv, "mu") {
+		return false
+	}
+	for _, nm := range names {
+		if sel.Sel.Name == nm {
+			return true
+		}
+	}
+	return false
+}
+
+func recvName(fd *ast.FuncDecl) string {
+	if fd.Recv != nil && len(fd.Recv.List) > 0 && len(fd.Recv.List[0].Names) > 0 {
+		return fd.Recv.List[0].Names[0].Name
+	}
+	return "_"
+}
+
+// capsUse classifies every occurrence of `<rv>.capabilities` below n.
+type capsUse struct {
+	assigns   int // <rv>.capabilities = …
+	mutations int // <rv>.capabilities[k] = …, delete(<rv>.capabilities, k), ++/--
+	reads     int // <rv>.capabilities[k] as a value, range, len
+	escapes   int // anything else: aliased, passed on, address taken (somebody else may then write through it)
+}
+
+func countCapsUses(n ast.Node, rv string) capsUse {
+	var u capsUse
+	classified := map[ast.Expr]bool{}
+	isCaps := func(e ast.Expr) bool { return selField(e, rv, "capabilities") }
+	ast.Inspect(n, func(x ast.Node) bool {
+		switch t := x.(type) {
+		case *ast.AssignStmt:
+			for _, l := range t.Lhs {
+				if isCaps(l) {
+					u.assigns++
+					classified[l] = true
+				} else if ix, ok := l.(*ast.IndexExpr); ok && isCaps(ix.X) {
+					u.mutations++
+					classified[ix.X] = true
+				}
+			}
+		case *ast.IncDecStmt:
+			if ix, ok := t.X.(*ast.IndexExpr); ok && isCaps(ix.X) {
+				u.mutations++
+				classified[ix.X] = true
+			}
+		case *ast.CallExpr:
+			if id, ok := t.Fun.(*ast.Ident); ok && len(t.Args) > 0 && isCaps(t.Args[0]) {
+				switch id.Name {
+				case "delete", "clear":
+					u.mutations++
+					classified[t.Args[0]] = true
+				case "len":
+					u.reads++
+					classified[t.Args[0]] = true
+				}
+			}
+		case *ast.IndexExpr:
+			if isCaps(t.X) && !classified[t.X] {
+				u.reads++
+				classified[t.X] = true
+			}
+		case *ast.RangeStmt:
+			if isCaps(t.X) {
+				u.reads++
+				classified[t.X] = true
+			}
+		}
+		return true
+	})
+	ast.Inspect(n, func(x ast.Node) bool {
+		if e, ok := x.(ast.Expr); ok && isCaps(e) && !classified[e] {
+			u.escapes++
+		}
+		return true
+	})
+	return u
+}
+
+// critical: the top-level statements of body that lie inside its (single, top-level) critical section opened by
+// `<rv>.mu.<lock>()` as an expression statement and closed by a top-level `<rv>.mu.<unlock>()` or a `defer` of it.
+// ok = false when the locking is not of that simple shape.
+func criticalSection(body *ast.BlockStmt, rv string, lock, unlock []string) (inside map[int]bool, ok bool) {
+	inside = map[int]bool{}
+	lockIdx, unlockIdx, deferred := -1, -1, false
+	for i, st := range body.List {
+		switch t := st.(type) {
+		case *ast.ExprStmt:
+			if muCall(t.X, rv, lock...) {
+				if lockIdx >= 0 {
+					return inside, false
+				}
+				lockIdx = i
+			} else if muCall(t.X, rv, unlock...) {
+				if lockIdx < 0 || unlockIdx >= 0 || deferred {
+					return inside, false
+				}
+				unlockIdx = i
+			}
+		case *ast.DeferStmt:
+			if muCall(t.Call, rv, unlock...) {
+				if lockIdx < 0 || unlockIdx >= 0 || deferred {
+					return inside, false
+				}
+				deferred = true
+			}
+		}
+	}
+	if lockIdx < 0 || (unlockIdx < 0 && !deferred) {
+		return inside, false
+	}
+	// no lock / unlock call anywhere else (nested blocks, closures)
+	n := 0
+	ast.Inspect(body, func(x ast.Node) bool {
+		if muCall(x, rv, "Lock", "Unlock", "RLock", "RUnlock", "TryLock", "TryRLock") {
+			n++
+		}
+		return true
+	})
+	if n != 2 {
+		return inside, false
+	}
+	end := len(body.List)
+	if !deferred {
+		end = unlockIdx
+	}
+	for i := lockIdx + 1; i < end; i++ {
+		inside[i] = true
+	}
+	return inside, true
+}
+
+// the request parameter as handleInitialize reads it: params["protocolVersion"] (with or without the type assertion)
+var requestedVersionExpr = regexp.MustCompile(`^[A-Za-z_][A-Za-z0-9_]*\["protocolVersion"\](\.\(string\))?$`)
+
+func lifecycleServerFacts(root *pkgSrc, b *strings.Builder) {
+	// ---- updateCapabilities: how often the shared map is stored, and where
+	var shape capsUse
+	locks := 0
+	inCrit := false
+	if fd, _ := root.funcDecl("lifecycleManager.updateCapabilities"); fd != nil && fd.Body != nil {
+		rv := recvName(fd)
+		shape = countCapsUses(fd.Body, rv)
+		ast.Inspect(fd.Body, func(x ast.Node) bool {
+			if muCall(x, rv, "Lock", "RLock", "TryLock", "TryRLock") {
+				locks++
+			}
+			return true
+		})
+		if inside, ok := criticalSection(fd.Body, rv, []string{"Lock"}, []string{"Unlock"}); ok {
+			// every use of the field (the store and the reads) is in a top-level statement inside the critical section
+			inCrit = true
+			for i, st := range fd.Body.List {
+				u := countCapsUses(st, rv)
+				if u.assigns+u.mutations+u.reads+u.escapes > 0 && !inside[i] {
+					inCrit = false
+				}
+				if u.assigns > 0 {
+					if _, isAssign := st.(*ast.AssignStmt); !isAssign {
+						inCrit = false // conditional store
+					}
+				}
+			}
+		}
+	} else {
+		shape = capsUse{escapes: 1}
+	}
+	// ---- buildInitializeResponse: reads the map under the (read) lock, writes nothing
+	readLocked := false
+	if fd, _ := root.funcDecl("lifecycleManager.buildInitializeResponse"); fd != nil && fd.Body != nil {
+		rv := recvName(fd)
+		inside, ok := criticalSection(fd.Body, rv, []string{"RLock", "Lock"}, []string{"RUnlock", "Unlock"})
+		all := countCapsUses(fd.Body, rv)
+		if ok && all.assigns == 0 && all.mutations == 0 && all.reads+all.escapes > 0 {
+			readLocked = true
+			for i, st := range fd.Body.List {
+				u := countCapsUses(st, rv)
+				if u.reads+u.escapes > 0 && !inside[i] {
+					readLocked = false
+				}
+			}
+		}
+	}
+	// ---- nobody else touches the map: other methods of lifecycleManager (the setter and the constructor apart,
+	// see lifecycleOverridesUsed), and code reaching in through a field named lifecycleManager
+	others := 0
+	for _, fn := range root.sortedFiles() {
+		for _, d := range root.files[fn].Decls {
+			fd, ok := d.(*ast.FuncDecl)
+			if !ok || fd.Body == nil {
+				continue
+			}
+			name := funcName(fd)
+			if strings.HasPrefix(name, "lifecycleManager.") {
+				switch name {
+				case "lifecycleManager.updateCapabilities", "lifecycleManager.buildInitializeResponse", "lifecycleManager.withCapabilities":
+					continue
+				}
+				u := countCapsUses(fd.Body, recvName(fd))
+				others += u.assigns + u.mutations + u.reads + u.escapes
+			}
+			ast.Inspect(fd.Body, func(x ast.Node) bool {
+				if sel, ok := x.(*ast.SelectorExpr); ok && sel.Sel.Name == "capabilities" {
+					if inner, ok := sel.X.(*ast.SelectorExpr); ok && inner.Sel.Name == "lifecycleManager" {
+						others++
+					}
+				}
+				return true
+			})
+		}
+	}
+	fmt.Fprintf(b, "/-- `lifecycleManager.updateCapabilities` / `buildInitializeResponse` and the shared map `capabilities`: stores of the field in\n    updateCapabilities, in-place writes, uses that let the map escape (alias, argument), Lock calls, every use of the field lies in the\n    function's single top-level critical section (the store unconditional), buildInitializeResponse only reads it and does so inside its\n    (read-)locked section, uses of the map anywhere else. Not recognised = a value `UpdShape.ok` rejects. -/\n")
+	fmt.Fprintf(b, "def updateCapabilitiesShape : UpdShape := { assigns := %d, mutations := %d, escapes := %d, locks := %d, inCrit := %s, readLocked := %s, others := %d }\n",
+		shape.assigns, shape.mutations, shape.escapes, locks, leanBool(inCrit), leanBool(readLocked), others)
+
+	// ---- handleInitialize: the version of the answer is selectSupportedVersion(requested), nothing in between
+	direct := false
+	if fd, _ := root.funcDecl("lifecycleManager.handleInitialize"); fd != nil && fd.Body != nil {
+		rv := recvName(fd)
+		// the call <rv>.buildInitializeResponse(X)
+		var arg *ast.Ident
+		nBuild := 0
+		ast.Inspect(fd.Body, func(x ast.Node) bool {
+			if m, ok := ownCall(x, rv); ok && m == "buildInitializeResponse" {
+				nBuild++
+				if call := x.(*ast.CallExpr); len(call.Args) == 1 {
+					arg, _ = call.Args[0].(*ast.Ident)
+				}
+			}
+			return true
+		})
+		// definitions of an identifier inside the function: (count, the single right-hand side)
+		defs := func(name string) (int, ast.Expr) {
+			n := 0
+			var rhs ast.Expr
+			ast.Inspect(fd.Body, func(x ast.Node) bool {
+				switch t := x.(type) {
+				case *ast.AssignStmt:
+					for i, l := range t.Lhs {
+						if id, ok := l.(*ast.Ident); ok && id.Name == name {
+							n++
+							if len(t.Lhs) == len(t.Rhs) {
+								rhs = t.Rhs[i]
+							} else {
+								rhs = nil
+								n += 100 // multi-value form: not understood
+							}
+						}
+					}
+				case *ast.ValueSpec:
+					for _, id := range t.Names {
+						if id.Name == name {
+							n += 100
+						}
+					}
+				case *ast.RangeStmt:
+					for _, e := range []ast.Expr{t.Key, t.Value} {
+						if id, ok := e.(*ast.Ident); ok && id.Name == name {
+							n += 100
+						}
+					}
+				case *ast.IncDecStmt:
+					if id, ok := t.X.(*ast.Ident); ok && id.Name == name {
+						n += 100
+					}
+				case *ast.UnaryExpr:
+					if id, ok := t.X.(*ast.Ident); ok && t.Op == token.AND && id.Name == name {
+						n += 100
+					}
+				}
+				return true
+			})
+			return n, rhs
+		}
+		if nBuild == 1 && arg != nil {
+			if n, rhs := defs(arg.Name); n == 1 && rhs != nil {
+				if call, ok := rhs.(*ast.CallExpr); ok && len(call.Args) == 1 {
+					if m, ok := ownCall(call, rv); ok && m == "selectSupportedVersion" {
+						if req, ok := call.Args[0].(*ast.Ident); ok {
+							if n2, rhs2 := defs(req.Name); n2 == 1 && rhs2 != nil {
+								txt := strings.Join(strings.Fields(root.text(rhs2)), "")
+								if requestedVersionExpr.MatchString(txt) {
+									direct = true
+								}
+							}
+						}
+					}
+				}
+			}
+		}
+		// the response of handleInitialize is that call's value: `response := m.buildInitializeResponse(v)` … `return response, nil`
+		// (a different return value would show in every differential run; not analysed here)
+	}
+	// buildInitializeResponse puts its parameter, unmodified, into ProtocolVersion
+	if fd, _ := root.funcDecl("lifecycleManager.buildInitializeResponse"); direct && fd != nil && fd.Body != nil && fd.Type.Params != nil &&
+		len(fd.Type.Params.List) == 1 && len(fd.Type.Params.List[0].Names) == 1 {
+		param := fd.Type.Params.List[0].Names[0].Name
+		okKV, writes := 0, 0
+		ast.Inspect(fd.Body, func(x ast.Node) bool {
+			switch t := x.(type) {
+			case *ast.KeyValueExpr:
+				if k, ok := t.Key.(*ast.Ident); ok && k.Name == "ProtocolVersion" {
+					if v, ok := t.Value.(*ast.Ident); ok && v.Name == param {
+						okKV++
+					} else {
+						okKV += 100
+					}
+				}
+			case *ast.AssignStmt:
+				for _, l := range t.Lhs {
+					if id, ok := l.(*ast.Ident); ok && id.Name == param {
+						writes++
+					}
+					if sel, ok := l.(*ast.SelectorExpr); ok && sel.Sel.Name == "ProtocolVersion" {
+						writes++
+					}
+				}
+			case *ast.UnaryExpr:
+				if id, ok := t.X.(*ast.Ident); ok && t.Op == token.AND && id.Name == param {
+					writes++
+				}
+			}
+			return true
+		})
+		direct = okKV == 1 && writes == 0
+	} else {
+		direct = false
+	}
+	fmt.Fprintf(b, "/-- `handleInitialize` hands `buildInitializeResponse` a variable that is defined exactly once, as `selectSupportedVersion(requested)`\n    with `requested` defined exactly once from the request's `protocolVersion` parameter, and `buildInitializeResponse` stores that\n    parameter unchanged into `ProtocolVersion`: the session plays no part in the version of the answer. -/\n")
+	fmt.Fprintf(b, "def initializeVersionDirect : Bool := %s\n", leanBool(direct))
 }
